@@ -57,7 +57,7 @@ struct Plan {
 };
 
 static const char* kStratName[] = {"serial", "opgrain", "sync", "walk", "pct", "explicit", "lockstep"};
-static const char* kFaultName[] = {"preempt", "stall", "late_start"};
+static const char* kFaultName[] = {"preempt", "stall", "late_start", "clock_jump"};
 
 static std::string plan_to_text(const Plan& pl) {
   std::string s;
@@ -146,7 +146,7 @@ static bool plan_from_text(const char* text, Plan& pl, std::string& err) {
       sim::Fault f{};
       if (sscanf(rest, "%31s %d %d %" SCNu64 " %" SCNu64, fn, &f.task, &f.op, &f.off, &f.arg) != 5) { err = "bad fault"; return false; }
       f.kind = -1;
-      for (int i = 0; i < 3; ++i)
+      for (int i = 0; i < sim::F_NKINDS; ++i)
         if (!strcmp(fn, kFaultName[i])) f.kind = i;
       if (f.kind < 0) { err = "bad fault kind"; return false; }
       pl.sched.faults.push_back(f);
@@ -253,6 +253,13 @@ static void run_op_guarded(OpInst& op, Out& out, int* threw) {
     out.i64(e.at);
     if (threw) *threw = 1;
   }
+  // the calling thread's floating-point environment is part of what a call leaves behind: rounding
+  // mode, flush-to-zero / denormals-are-zero and exception masks (sticky status flags excluded) must
+  // be what a sequential run leaves - a thread whose mode was changed computes differently afterwards
+  out.i64((int64_t)(__builtin_ia32_stmxcsr() & 0xffc0u));
+  unsigned short x87cw = 0;
+  __asm__ volatile("fnstcw %0" : "=m"(x87cw));
+  out.i64((int64_t)x87cw);
 }
 
 static void task_body(int task, void* arg) {
@@ -945,11 +952,16 @@ static void gen_sched(uint64_t seed, uint64_t widx, uint64_t sidx, const Plan& p
     f.op = (int)r.below(nops);
     uint64_t oe = refs.op_events[f.task][f.op];
     f.off = oe > 2 ? 1 + (uint64_t)r.below((int64_t)oe - 1) : 1;
-    if (k < 0.5) {
+    if (k < 0.45) {
       f.kind = sim::F_PREEMPT;
-    } else if (k < 0.85) {
+    } else if (k < 0.78) {
       f.kind = sim::F_STALL;
       f.arg = 1 + (uint64_t)r.below(4);
+    } else if (k < 0.88) {
+      // the clock jumps by 1 ms .. 100 s while the task is inside the operation
+      f.kind = sim::F_CLOCK;
+      f.arg = 1000000ull;
+      for (int64_t e = r.below(6); e > 0; --e) f.arg *= 10;
     } else {
       f.kind = sim::F_LATE;
       f.op = -1;
@@ -993,13 +1005,13 @@ static std::string run_json(const char* tag, uint64_t seed, uint64_t widx, uint6
            "\"p\":%g,\"depth\":%d,\"cls\":\"%s\",\"clsbits\":%u,\"events\":%" PRIu64 ",\"ref_events\":%" PRIu64
            ",\"switches\":%" PRIu64 ",\"forced\":%" PRIu64 ",\"log\":\"%s\",\"sched\":\"%s\",\"csig\":\"%s\",\"conflicts\":%" PRIu64
            ",\"races_total\":%" PRIu64 ",\"guard_init\":%" PRIu64 ",\"guard_block\":%" PRIu64 ",\"preempt_in_init\":%" PRIu64
-           ",\"mutex_block\":%" PRIu64 ",\"fired\":[%" PRIu64 ",%" PRIu64 ",%" PRIu64 "],\"fair\":%d,\"ev_static\":%" PRIu64
+           ",\"mutex_block\":%" PRIu64 ",\"fired\":[%" PRIu64 ",%" PRIu64 ",%" PRIu64 ",%" PRIu64 "],\"fair\":%d,\"ev_static\":%" PRIu64
            ",\"ev_heap\":%" PRIu64 ",\"pool_objects\":%" PRIu64 ",\"wall\":%.4f",
            tag, seed, widx, sidx, pl.tasks.size(), pl.warm, kStratName[pl.sched.strategy], pl.sched.p, pl.sched.depth,
            cls_name(ro.cls), ro.cls, res.events, refs.total_events, res.switches, res.forced_switches, hex64(res.log_hash).c_str(),
            hex64(res.sched_hash).c_str(), hex64(res.conflict_sig).c_str(), res.conflict_events, res.races_total,
            res.guard_init_in_sim, res.guard_block, res.preempt_in_init, res.mutex_block, res.fault_fired[0], res.fault_fired[1],
-           res.fault_fired[2], res.fair_mode_entered, res.events_by_class[1], res.events_by_class[2], g_shm->pool_objects, wall);
+           res.fault_fired[2], res.fault_fired[3], res.fair_mode_entered, res.events_by_class[1], res.events_by_class[2], g_shm->pool_objects, wall);
   s += b;
   snprintf(b, sizeof b, ",\"lib_threads\":[%" PRIu64 ",%" PRIu64 ",%" PRIu64 ",%" PRIu64 "]", g_shm->prep_threads, res.dynamic_threads,
            res.adopted_threads, res.daemon_threads);
@@ -1086,7 +1098,14 @@ static std::string run_json(const char* tag, uint64_t seed, uint64_t widx, uint6
 static Plan with_explicit_schedule(const Plan& pl) {
   Plan q = pl;
   q.sched.strategy = sim::S_EXPLICIT;
-  q.sched.faults.clear();
+  // the recorded switch list replaces preemptions, stalls and late starts; a clock jump is not a
+  // switch and stays in the plan
+  {
+    std::vector<sim::Fault> keep;
+    for (const auto& f : q.sched.faults)
+      if (f.kind == sim::F_CLOCK) keep.push_back(f);
+    q.sched.faults = keep;
+  }
   q.sched.sw.assign(g_shm->sw, g_shm->sw + (size_t)g_shm->n_sw);
   return q;
 }
